@@ -330,17 +330,35 @@ func (c *Chain) Project(ctx sdk.Context) map[string]any {
 		spot[u(o.OrderId)] = map[string]any{"id": u(o.OrderId), "owner": c.name(o.OwnerAddress), "type": o.OrderType.String(),
 			"base": o.OrderPrice.BaseDenom, "quote": o.OrderPrice.QuoteDenom, "rate": ds(o.OrderPrice.Rate),
 			"denom": o.OrderAmount.Denom, "amount": is(o.OrderAmount.Amount), "target": o.OrderTargetDenom,
-			"escrow": c.name(o.GetOrderAddress().String()), "status": o.Status.String()}
+			"escrow": c.name(o.GetOrderAddress().String()), "status": o.Status.String(),
+			"marketPrice": probeDec(func() (math.LegacyDec, error) {
+				return a.TradeshieldKeeper.GetAssetPriceFromDenomInToDenomOut(pctx, o.OrderPrice.BaseDenom, o.OrderPrice.QuoteDenom)
+			})}
 	}
 	perpo := map[string]any{}
 	for _, o := range a.TradeshieldKeeper.GetAllPendingPerpetualOrder(ctx) {
 		perpo[u(o.OrderId)] = map[string]any{"id": u(o.OrderId), "owner": c.name(o.OwnerAddress), "type": o.PerpetualOrderType.String(),
 			"side": o.Position.String(), "trigAsset": o.TriggerPrice.TradingAssetDenom, "trigRate": ds(o.TriggerPrice.Rate),
 			"denom": o.Collateral.Denom, "amount": is(o.Collateral.Amount), "tradingAsset": o.TradingAsset, "leverage": ds(o.Leverage),
-			"pool": u(o.PoolId), "positionId": u(o.PositionId), "escrow": c.name(o.GetOrderAddress().String()), "status": o.Status.String()}
+			"pool": u(o.PoolId), "positionId": u(o.PositionId), "escrow": c.name(o.GetOrderAddress().String()), "status": o.Status.String(),
+			"marketPrice": probeDec(func() (math.LegacyDec, error) { return a.PerpetualKeeper.GetAssetPrice(pctx, o.TradingAsset) })}
 	}
 	st["ts"] = map[string]any{"spot": spot, "perp": perpo}
 	return st
+}
+
+// probeDec evaluates a real price function on the observed state; "-1" when it errors or panics.
+func probeDec(f func() (math.LegacyDec, error)) (out string) {
+	defer func() {
+		if r := recover(); r != nil {
+			out = "-1"
+		}
+	}()
+	d, err := f()
+	if err != nil {
+		return "-1"
+	}
+	return ds(d)
 }
 
 func probeLpPrice(c *Chain, ctx sdk.Context, ap ammtypes.Pool) (d math.LegacyDec, err error) {
